@@ -444,10 +444,29 @@ def generate(repo):
         w("Definition %s : list fterm :=\n  [ %s ].\n" % (name, ";\n    ".join(
             'FT "%s" "%s" %s %s' % (tg, srcv, cp.coq_expr(cf), "true" if lp else "false") for tg, srcv, cf, lp in terms)))
 
-    defstmt("ss_acc", loop_body(model, consts, "calc_ss_fractions", ["n_tot", "+="]), "calc_ss_fractions(): body of the loop that accumulates n_tot")
-    defstmt("ss_frac", loop_body(model, consts, "calc_ss_fractions", ["Set_fraction_x", "("]), "calc_ss_fractions(): body of the loop that sets fraction_x")
+    sacc = loop_body(model, consts, "calc_ss_fractions", ["n_tot", "+="])
+    sfrac = loop_body(model, consts, "calc_ss_fractions", ["Set_fraction_x", "("])
+    defstmt("ss_acc", sacc, "calc_ss_fractions(): body of the loop that accumulates n_tot")
+    defstmt("ss_frac", sfrac, "calc_ss_fractions(): body of the loop that sets fraction_x")
+    av = []
+    assigned_vars(sacc, av)
+    bind = [e[1] for v, e in av if e[0] == "var" and e[1].endswith(".moles")]
+    av2 = []
+    assigned_vars(sfrac, av2)
+    outv = [v for v, _ in av2 if v.endswith(".fraction_x") and not v.endswith("log10_fraction_x")]
+    if len(set(bind)) != 1 or len(outv) != 1:
+        raise Refuse("calc_ss_fractions: cannot identify the component amount / fraction_x variables")
+    w('Definition ss_bind_var : string := "%s".  (* amount of the current component (Get_moles) *)' % bind[0])
+    w('Definition ss_frac_var : string := "%s".  (* Set_fraction_x target *)\n' % outv[0])
     defstmt("ss_dispatch", ss_dispatch(model, consts), "calc_ss_fractions(): ideal / binary dispatch")
-    defstmt("ss_ideal_body", loop_body(model, consts, "ss_ideal", ["Set_log10_lambda", "("]), "ss_ideal(): body of the component loop")
+    sid = loop_body(model, consts, "ss_ideal", ["Set_log10_lambda", "("])
+    defstmt("ss_ideal_body", sid, "ss_ideal(): body of the component loop")
+    av3 = []
+    assigned_vars(sid, av3)
+    lv = sorted(set(v for v, _ in av3 if v.endswith(".log10_lambda")))
+    if len(lv) != 1:
+        raise Refuse("ss_ideal: cannot identify the log10_lambda variable")
+    w('Definition ss_lambda_var : string := "%s".  (* Set_log10_lambda target *)\n' % lv[0])
     defstmt("ss_binary_body", whole_body(model, consts, "ss_binary"), "ss_binary(): whole body")
     defstmt("reset_pp", reset_pp(model, consts), "reset(): PP row (update of the amount of the phase)")
     sv = loop_body(mains, consts, "xpp_assemblage_save", ["Set_moles", "("])
